@@ -8,6 +8,9 @@ structure AFix where
   f28 : Bool := false   -- `poll_complete` sets the position
 deriving Repr, DecidableEq
 
+/-- the repairs the repository contains now; the harness runs the model with this value (`FX=current`) -/
+def AFix.current : AFix := { f16 := true, f28 := true }
+
 inductive Res where
   | ok (n : Nat) | err | pending
 deriving Repr, DecidableEq
